@@ -70,7 +70,7 @@ static int check_sig(const unsigned char *bytes, size_t n, const rsig *model, co
 		if (v.nviolated == 1) {
 			int k = 0, i;
 			for (i = 1; i <= 17; i++) if ((v.violated | v.uncomputable) & (1u << i)) k = i;
-			if (v.violated) {
+			if (v.violated && !v.uncomputable) {
 				vf_outcome("single:INT-%02d:%s", k, ok ? "OK" : (rc != KSI_OK ? "error" : (result->finalResult.resultCode == KSI_VER_RES_FAIL ? "FAIL" : "NA")));
 				if (!ok && (rc != KSI_OK || result->finalResult.resultCode != KSI_VER_RES_FAIL || (int)result->finalResult.errorCode != 0x200 + k))
 					vf_fail("wrong-code", "%s: exactly INT-%02d violated (computable): expected FAIL 0x%x, got rc=0x%x result=%d error=0x%x", what, k, 0x200 + k, rc, result ? (int)result->finalResult.resultCode : -1, result ? (int)result->finalResult.errorCode : -1);
@@ -148,7 +148,7 @@ static int check_model(const rsig *s, const char *what) {
 }
 
 /* ------------------------------------------------------------------ mutation catalogue */
-#define NMUT 54
+#define NMUT 58
 static const char *MUTNAME[NMUT] = {
 	"chain1-input", "chainlast-input", "rfc-suffix", "chain1-time", "chainlast-time", "rfc-time", "cal-input", "cal-aggrtime-consistent",
 	"cal-flip-link", "cal-drop-link", "cal-add-link", "auth-time", "auth-hash", "pub-time", "pub-hash", "index-last-top", "index-last-bottom",
@@ -156,7 +156,8 @@ static const char *MUTNAME[NMUT] = {
 	"index-extra", "index-prefix", "rfc-index", "doc-sha1", "chain-sha1", "rfc-tst-sha1", "rfc-sig-sha1", "rfc-out-sha1", "all-times-shift", "cal-no-aggrtime",
 	"meta-padv-00", "meta-padv-ff", "meta-padv-0201", "meta-padv-0001", "meta-padv-ff01", "meta-padv-0102", "meta-padv-0100", "meta-padv-0202", "meta-padv-empty", "meta-padv-010101", "meta-padv-0101-ok", "meta-padv-01-ok",
 	"cal-add-right-lowest", "cal-add-left-lowest", "cal-add-right-second", "cal-dup-first",
-	"corr-2^64-1", "corr-2^64-2-last-chain", "corr-2^32", "cal-no-aggrtime-consistent"
+	"corr-2^64-1", "corr-2^64-2-last-chain", "corr-2^32", "cal-no-aggrtime-consistent",
+	"rfc-tst-alg+2^32", "rfc-sig-alg+2^32", "rfc-both-alg+2^63", "rfc-tst-alg-257"
 };
 
 static rlink *find_meta(rsig *s, int *chain) {
@@ -273,6 +274,12 @@ static int mutate(rsig *s, int m) {
 			s->cal_has_aggr = 0;
 			return rs_fix(s, RS_FIX_CALSHAPE | RS_FIX_TAIL);
 		}
+		/* RFC3161 record: algorithm ids that do not fit 32 bits but whose low half is a known id (everything else untouched: a reader that
+		 * narrows the id computes exactly the hashes the record was built with) */
+		case 54: if (!s->has_rfc || s->rfc.tst_alg != RH_SHA256) return -1; s->rfc.tst_alg += 0x100000000ULL; return 0;
+		case 55: if (!s->has_rfc || s->rfc.sig_alg != RH_SHA256) return -1; s->rfc.sig_alg += 0x100000000ULL; return 0;
+		case 56: if (!s->has_rfc || s->rfc.tst_alg != RH_SHA256 || s->rfc.sig_alg != RH_SHA256) return -1; s->rfc.tst_alg += 0x8000000000000000ULL; s->rfc.sig_alg += 0x8000000000000000ULL; return 0;
+		case 57: if (!s->has_rfc || s->rfc.tst_alg != RH_SHA256) return -1; s->rfc.tst_alg += 256; return 0;
 		case 50: s->ch[0].links[0].level_corr = 0xffffffffffffffffULL; s->ch[0].links[0].has_level_corr = 1; return 0;   /* wraps to "no correction" in 64-bit arithmetic */
 		case 51: { rs_chain *c = &s->ch[s->nchains - 1]; c->links[c->nlinks - 1].level_corr = 0xfffffffffffffffeULL; c->links[c->nlinks - 1].has_level_corr = 1; return 0; }
 		case 52: s->ch[0].links[0].level_corr += 0x100000000ULL; s->ch[0].links[0].has_level_corr = 1; return 0;
